@@ -1873,6 +1873,7 @@ class Compiler:
             # in the enclosing function; the filler has its own. It
             # writes to the stream it's called with.
             body = template("__append = __stream.append") + \
+                template("__token = None") + \
                 emit_func_convert("__convert") + \
                 emit_func_convert_and_escape("__quote") + \
                 self.visit_Context(slot)
